@@ -67,11 +67,23 @@ Definition index_key (idx : N) : str := int32_to_bytes idx.
 Section Fill.
   Variable X : Type.
   Variable f : X -> res node.
-  (* for key, val := range value { tagsBucket.setMarshaled(key, val, allowNested) } *)
+  (* for key, val := range value {
+       if key == ListSizeKeyName { tagsBucket.SetError(reserved key); break }
+       tagsBucket.setMarshaled(key, val, allowNested) }
+     The key under which PutList keeps the list size cannot be a map key: a map holding an int32
+     there would be read back as a list. *)
   Fixpoint fill_map (m : list (str * X)) (acc : bucket) : res bucket :=
     match m with
     | [] => Ok acc
-    | (k, x) :: t => bind (f x) (fun n => bind (place k n acc) (fun acc' => fill_map t acc'))
+    | (k, x) :: t =>
+        if str_eqb k ListSizeKeyName then Err
+        else bind (f x) (fun n => bind (place k n acc) (fun acc' => fill_map t acc'))
+    end.
+  (* the loop as it was before the reserved key was rejected (pinned tree) *)
+  Fixpoint fill_map_legacy (m : list (str * X)) (acc : bucket) : res bucket :=
+    match m with
+    | [] => Ok acc
+    | (k, x) :: t => bind (f x) (fun n => bind (place k n acc) (fun acc' => fill_map_legacy t acc'))
     end.
   (* for idx, val := range value { listBucket.setMarshaled(string(Int32ToBytes(int32(idx))), val, true) } *)
   Fixpoint fill_list (l : list X) (idx : N) (acc : bucket) : res bucket :=
@@ -81,6 +93,7 @@ Section Fill.
     end.
 End Fill.
 Arguments fill_map {X} f m acc.
+Arguments fill_map_legacy {X} f m acc.
 Arguments fill_list {X} f l idx acc.
 
 (* what setMarshaled(name, v, allowNested) puts under [name]: a typed scalar, or a freshly
@@ -95,6 +108,20 @@ Fixpoint entry_node (allowNested : bool) (v : value) {struct v} : res node :=
   | VList l =>
       if allowNested then
         bind (fill_list (entry_node true) l 0 []) (fun c =>
+        bind (b_put ListSizeKeyName (int32_to_bytes (N.of_nat (length l))) c) (fun c' => Ok (Sub c')))
+      else Err
+  end.
+
+(* setMarshaled of the pinned tree: PutMap accepted the reserved key *)
+Fixpoint entry_node_legacy (allowNested : bool) (v : value) {struct v} : res node :=
+  match v with
+  | VS s => Ok (Leaf (encode_scalar s))
+  | VBad => Err
+  | VMap m =>
+      if allowNested then bind (fill_map_legacy (entry_node_legacy true) m []) (fun c => Ok (Sub c)) else Err
+  | VList l =>
+      if allowNested then
+        bind (fill_list (entry_node_legacy true) l 0 []) (fun c =>
         bind (b_put ListSizeKeyName (int32_to_bytes (N.of_nat (length l))) c) (fun c' => Ok (Sub c')))
       else Err
   end.
